@@ -11,18 +11,20 @@ import "github.com/gobuffalo/plush/v5/helpers/hctx"
 // than or equal to `size`, `trail` will be returned
 // completely as is. Defaults to a `trail` of `...`.
 func Truncate(s string, opts hctx.Map) string {
-	if opts["size"] == nil {
-		opts["size"] = 50
-	}
-	if opts["trail"] == nil {
-		opts["trail"] = "..."
+	// the options are only read: the caller's map (which may be nil, or
+	// shared between renders) is never written to
+	size := 50
+	if v := opts["size"]; v != nil {
+		size = v.(int)
 	}
 	runesS := []rune(s)
-	size := opts["size"].(int)
 	if len(runesS) <= size {
 		return s
 	}
-	trail := opts["trail"].(string)
+	trail := "..."
+	if v := opts["trail"]; v != nil {
+		trail = v.(string)
+	}
 	runesTrail := []rune(trail)
 	if len(runesTrail) >= size {
 		return trail
